@@ -295,3 +295,37 @@ def readings_stored_as_returned(O):
             "into_data_row resp. the driver, set_outputs and extract_output_values")
 def glue_stores_nothing(O):
     dri.glue_keeps_state(O, rep())
+
+
+@obligation("C04/no-leftover-bindings", desc="next_with_context, per arm: a frame is pushed only when a loop is entered (0 < bound) and "
+            "popped exactly when it ends - a skipped loop leaves no counter or loop-local binding behind that would shadow a device "
+            "output of the same name in later expressions")
+def no_leftover_bindings(O):
+    from . import C01
+    C01.interpreter_arms(dri.WithRep(O, rep()))
+
+
+@obligation("C04/reset-keeps-readings", desc="EvalContext::reset_random_seed stores into the generator only (write log of the "
+            "function): variables and the most recently read device values are untouched by resetRandom")
+def reset_keeps_readings(O):
+    m = O.mir
+    R = rep()
+    fn = O.find("::reset_random_seed")
+    eng = O.engine()
+    paths = O.explore(eng, fn)
+    rng_idx = m.fidx("EvalContext", "rng")
+    n = 0
+    for p in paths:
+        if p.outcome != "return":
+            R.fail(O, p, "reset_random_seed: %s %s" % (p.outcome, p.detail))
+            continue
+        n += 1
+        for w in p.state.extra.get("writes", []):
+            # allowed: stores below the rng field (`_1.*.f<rng>` ...) and the RefCell replace of the generator
+            if (".f%d" % rng_idx) in w[1] or "mem::replace" in w[1] and "RefCell" in w[1] or "StdRng" in w[1]:
+                continue
+            R.fail(O, p, "reset_random_seed also stores into %s" % w[1])
+            break
+        others = [e.norm.split("::")[-1] for e in p.trace if e.kind == "call" and e.crate and not e.norm.endswith("with_seed")]
+    if n == 0:
+        O.inconclusive("vacuous: reset_random_seed never returns")
